@@ -395,12 +395,33 @@ def _block_chain(fn: ast.AST, target: ast.AST) -> Optional[List[Tuple[List[ast.s
     return rec(getattr(fn, "body", []))
 
 
-def expanded_test(fi: FuncInfo, node: ast.Assert, depth: int = 6) -> str:
-    """The asserted condition with plain local names replaced by their (straight-line) reaching definitions, so that
-    renaming a local or introducing an intermediate name does not change the identity of a reviewed assert."""
-    chain = _block_chain(fi.node, node)
+def _straight_line_return(fn: ast.AST) -> Optional[ast.Return]:
+    """the single `return <expr>` of a helper whose body is assignments / asserts / docstrings / logging and that
+    return at the end: such a helper can be read as an expression of its arguments"""
+    body = list(getattr(fn, "body", []))
+    if not body or not isinstance(body[-1], ast.Return) or body[-1].value is None:
+        return None
+    for st in body[:-1]:
+        if isinstance(st, (ast.Assign, ast.AnnAssign, ast.Assert, ast.Pass)):
+            continue
+        if isinstance(st, ast.Expr) and (isinstance(st.value, ast.Constant) or (isinstance(st.value, ast.Call) and norm(st.value.func).startswith(("logging.", "logger.")))):
+            continue
+        return None
+    return body[-1]
+
+
+def _expand_expr(fi: FuncInfo, anchor: ast.AST, expr: ast.AST, depth: int, prog: Optional[Program], placeholders: Dict[str, str]) -> ast.AST:
+    """`expr`, as evaluated just before statement `anchor` of `fi`, with plain local names replaced by their
+    straight-line reaching definitions; with a program at hand, a call of a helper extracted later is replaced by the
+    helper's returned expression (a helper that is one expression of its arguments) or by a placeholder local (a helper
+    with several returns: a value the function computes in some other way)."""
+    import copy as _copy
+
+    from .pathsim import is_new_helper
+
+    chain = _block_chain(fi.node, anchor)
     if chain is None:
-        return norm(node.test)
+        return _copy.deepcopy(expr)
 
     def definition(name: str) -> Optional[ast.expr]:
         for stmts, idx in reversed(chain):
@@ -420,6 +441,19 @@ def expanded_test(fi: FuncInfo, node: ast.Assert, depth: int = 6) -> str:
                     return None
         return None
 
+    def helper_of(call: ast.Call) -> Optional[FuncInfo]:
+        if prog is None:
+            return None
+        f = call.func
+        g = None
+        if isinstance(f, ast.Name):
+            g = prog.resolve_name(fi.module, f.id)
+        elif isinstance(f, ast.Attribute) and isinstance(f.value, ast.Name) and fi.cls is not None and (f.value.id in (fi.params[:1] or []) or f.value.id == fi.cls.name):
+            g = prog.resolve_method(fi.cls.name, f.attr)
+        if g is not None and g.__class__.__name__ == "FuncInfo" and is_new_helper(g.key) and not isinstance(g.node, ast.Lambda):
+            return g
+        return None
+
     class Sub(ast.NodeTransformer):
         def __init__(self, left: int) -> None:
             self.left = left
@@ -428,21 +462,59 @@ def expanded_test(fi: FuncInfo, node: ast.Assert, depth: int = 6) -> str:
             if isinstance(n.ctx, ast.Load) and self.left > 0 and n.id not in fi.params:
                 d = definition(n.id)
                 if d is not None:
-                    import copy as _copy
-
                     return Sub(self.left - 1).visit(_copy.deepcopy(d))
             return n
 
-    import copy as _copy
+        def visit_Call(self, c: ast.Call) -> ast.AST:
+            self.generic_visit(c)
+            g = helper_of(c)
+            if g is None or self.left <= 0:
+                return c
+            ret = _straight_line_return(g.node)
+            params = list(g.params)
+            if g.kind in ("method", "classmethod") and isinstance(c.func, ast.Attribute):
+                params = params[1:]
+            if ret is not None and not any(isinstance(a_, ast.Starred) for a_ in c.args) and all(k.arg for k in c.keywords):
+                bound = dict(zip(params, c.args))
+                bound.update({k.arg: k.value for k in c.keywords})
+                inner = _expand_expr(g, ret, ret.value, self.left - 1, prog, placeholders)
 
-    tree = ast.fix_missing_locations(Sub(depth).visit(_copy.deepcopy(node.test)))
+                class Args(ast.NodeTransformer):
+                    def visit_Name(self, n_: ast.Name) -> ast.AST:
+                        return _copy.deepcopy(bound[n_.id]) if isinstance(n_.ctx, ast.Load) and n_.id in bound else n_
+
+                if all(p_ in bound for p_ in params if any(isinstance(x, ast.Name) and x.id == p_ for x in ast.walk(inner))):
+                    return Args().visit(inner)
+            # several returns / statements: a value computed in some other way - a local without a single definition
+            ph = placeholders.setdefault(norm(c), "_H%d" % (len(placeholders) + 1))
+            return ast.Name(id=ph, ctx=ast.Load())
+
+        def visit_Attribute(self, n: ast.Attribute) -> ast.AST:
+            self.generic_visit(n)
+            if isinstance(n.value, ast.Name) and n.value.id.startswith("_H") and n.value.id in placeholders.values():
+                ph = placeholders.setdefault(norm(n), "_H%d" % (len(placeholders) + 1))
+                return ast.Name(id=ph, ctx=ast.Load())
+            return n
+
+        def visit_Subscript(self, n: ast.Subscript) -> ast.AST:
+            self.generic_visit(n)
+            if isinstance(n.value, ast.Name) and n.value.id in placeholders.values() and isinstance(n.slice, ast.Constant):
+                ph = placeholders.setdefault(norm(n), "_H%d" % (len(placeholders) + 1))
+                return ast.Name(id=ph, ctx=ast.Load())
+            return n
+
+    return ast.fix_missing_locations(Sub(depth).visit(_copy.deepcopy(expr)))
+
+
+def _finish_expanded(fi: FuncInfo, tree: ast.AST, placeholders: Dict[str, str]) -> str:
     # what is still a local name (several definitions, loop variables) is replaced by a placeholder numbered by
     # first appearance: the identity of an assert does not depend on how its locals are called
     import builtins as _bi
 
     stored = {n.id for n in ast.walk(fi.node) if isinstance(n, ast.Name) and isinstance(n.ctx, (ast.Store, ast.Del))}
     text = norm(tree)
-    locals_left = {n.id for n in ast.walk(tree) if isinstance(n, ast.Name) and n.id in stored and n.id not in fi.params and not hasattr(_bi, n.id)}
+    ph = set(placeholders.values())
+    locals_left = {n.id for n in ast.walk(tree) if isinstance(n, ast.Name) and ((n.id in stored and n.id not in fi.params and not hasattr(_bi, n.id)) or n.id in ph)}
     order: Dict[str, str] = {}
     for name in sorted(locals_left, key=lambda nm: (text.find(nm), nm)):
         order[name] = "_L%d" % (len(order) + 1)
@@ -456,6 +528,92 @@ def expanded_test(fi: FuncInfo, node: ast.Assert, depth: int = 6) -> str:
             if not isinstance(r_, ast.Constant) and norm(l_) > norm(r_):
                 n.left, n.comparators = r_, [l_]
     return norm(tree)
+
+
+def expanded_test(fi: FuncInfo, node: ast.Assert, depth: int = 6, prog: Optional[Program] = None) -> str:
+    """The asserted condition with plain local names replaced by their (straight-line) reaching definitions, so that
+    renaming a local or introducing an intermediate name does not change the identity of a reviewed assert."""
+    if _block_chain(fi.node, node) is None:
+        return norm(node.test)
+    placeholders: Dict[str, str] = {}
+    tree = _expand_expr(fi, node, node.test, depth, prog, placeholders)
+    return _finish_expanded(fi, tree, placeholders)
+
+
+def expanded_at_call_sites(prog: Program, fi: FuncInfo, node: ast.Assert, depth: int = 6, level: int = 0) -> Optional[List[Tuple[str, str]]]:
+    """For an assert inside a helper extracted later: the asserted condition as each caller states it - the helper's
+    parameters replaced by the arguments of the call, those expanded in the caller.  [(caller key, expanded text)];
+    None when a call site cannot be followed (starred arguments, the helper passed around as a value)."""
+    import copy as _copy
+
+    from .pathsim import is_new_helper
+
+    if level > 2:
+        return None
+    placeholders: Dict[str, str] = {}
+    inner = _expand_expr(fi, node, node.test, depth, prog, placeholders)
+    out: List[Tuple[str, str]] = []
+    for g in prog.all_functions():
+        if isinstance(g.node, ast.Lambda) or g is fi:
+            continue
+        for c in ast.walk(g.node):
+            if not isinstance(c, ast.Call):
+                continue
+            f = c.func
+            tgt = None
+            skip = 0
+            if isinstance(f, ast.Name):
+                tgt = prog.resolve_name(g.module, f.id)
+            elif isinstance(f, ast.Attribute) and isinstance(f.value, ast.Name) and g.cls is not None and fi.cls is not None and (f.value.id in (g.params[:1] or []) or f.value.id == fi.cls.name):
+                tgt = prog.resolve_method(g.cls.name, f.attr)
+                skip = 1 if fi.kind in ("method", "classmethod") else 0
+            if tgt is not fi:
+                continue
+            if any(isinstance(a_, ast.Starred) for a_ in c.args) or any(k.arg is None for k in c.keywords):
+                return None
+            params = list(fi.params)[skip:]
+            bound = dict(zip(params, c.args))
+            bound.update({k.arg: k.value for k in c.keywords})
+            stmt = None
+            for st in ast.walk(g.node):
+                if isinstance(st, ast.stmt) and not isinstance(st, (ast.FunctionDef, ast.If, ast.For, ast.While, ast.Try, ast.With)) and any(x is c for x in ast.walk(st)):
+                    stmt = st
+            if stmt is None:
+                for st in ast.walk(g.node):
+                    if isinstance(st, ast.stmt) and st is not g.node and any(x is c for x in ast.walk(getattr(st, "test", None) or getattr(st, "iter", None) or ast.Pass())):
+                        stmt = st
+            if stmt is None:
+                return None
+            ph2: Dict[str, str] = dict(placeholders)
+
+            class Args(ast.NodeTransformer):
+                def visit_Name(self, n_: ast.Name) -> ast.AST:
+                    if isinstance(n_.ctx, ast.Load) and n_.id in bound:
+                        return _expand_expr(g, stmt, bound[n_.id], depth, prog, ph2)
+                    return n_
+
+            tree = Args().visit(_copy.deepcopy(inner))
+            if is_new_helper(g.key):
+                # the caller is itself a later helper: one more level up (its own parameters are arguments there)
+                fake = ast.Assert(test=tree, msg=None)
+                ast.copy_location(fake, stmt)
+                ast.fix_missing_locations(fake)
+                # evaluate the condition in the caller at the call statement: splice the assert in front of it
+                chain = _block_chain(g.node, stmt)
+                if chain is None:
+                    return None
+                stmts, idx = chain[-1]
+                stmts.insert(idx, fake)
+                try:
+                    up = expanded_at_call_sites(prog, g, fake, depth, level + 1)
+                finally:
+                    stmts.remove(fake)
+                if up is None:
+                    return None
+                out.extend(up)
+            else:
+                out.append((g.key, _finish_expanded(g, ast.fix_missing_locations(tree), ph2)))
+    return out
 
 
 def load_assert_table() -> Dict[str, dict]:
@@ -548,6 +706,30 @@ def rule_asserts(ctx: Ctx, rule: str = "assert-on-input") -> None:
                         if test2 == t_ and (f2 is None or f2.module.base == fi.module.base):
                             ent = e2
                             break
+            if ent is None:
+                # through helpers extracted later: the same condition with the helper calls read as expressions
+                exp2 = expanded_test(fi, node, prog=prog)
+                for k2, e2 in table.items():
+                    if k2.startswith(fi.key + " :: ") and (e2.get("expanded") == exp2 or exp2 in e2.get("expanded_forms", [])):
+                        ent = e2
+                        break
+            if ent is None:
+                from .pathsim import is_new_helper as _inh
+
+                if _inh(fi.key):
+                    # an assert on the parameters of a later helper: the condition every caller states through it
+                    sites = expanded_at_call_sites(prog, fi, node)
+                    if sites:
+                        hits = []
+                        for caller, text in sites:
+                            hit = None
+                            for k2, e2 in table.items():
+                                if k2.startswith(caller + " :: ") and (e2.get("expanded") == text or text in e2.get("expanded_forms", [])):
+                                    hit = e2
+                                    break
+                            hits.append(hit)
+                        if all(h is not None for h in hits):
+                            ent = hits[0]
             if ent is None:
                 ref = load_declines().get(fi.key, [])
                 now = set(decline_sites(prog).get(fi.key, []))
@@ -695,6 +877,14 @@ def written_entries(prog: Program) -> List[Dict[str, Any]]:
                     for x in walk(a):
                         if isinstance(x, tuple) and x and x[0] == "dict":
                             for k, v in x[1]:
+                                if k is not None and is_const(k) and isinstance(k[1], str):
+                                    items[k[1]] = v
+            if e["kind"] == "call" and not items:
+                # the document built as a comprehension whose element is the entry (a dictionary display)
+                for a in list(e["args"]) + [v for _k, v in e["kws"]]:
+                    for x in walk(a):
+                        if isinstance(x, tuple) and x and x[0] in ("listcomp", "genexp") and isinstance(x[1], tuple) and x[1] and x[1][0] == "dict":
+                            for k, v in x[1][1]:
                                 if k is not None and is_const(k) and isinstance(k[1], str):
                                     items[k[1]] = v
         if items:
@@ -1599,8 +1789,41 @@ class _DivEvidence:
                             return True
             if isinstance(par, ast.If) and any(cur is s_ for s_ in par.orelse) and want in self._zero_tests_canon(par.test):
                 return True
+            if isinstance(par, ast.If) and any(cur is s_ for s_ in par.body) and want in self._nonzero_tests_canon(par.test):
+                return True
             cur = par
         return False
+
+    def _positive_number(self, e: ast.AST) -> Optional[float]:
+        """the value of a numeric literal, or of a module-level name bound once to one"""
+        if isinstance(e, ast.Constant) and isinstance(e.value, (int, float)) and not isinstance(e.value, bool):
+            return float(e.value)
+        if isinstance(e, ast.UnaryOp) and isinstance(e.op, ast.USub):
+            v = self._positive_number(e.operand)
+            return None if v is None else -v
+        if isinstance(e, ast.Name) and e.id not in self.fl.defs and e.id not in self.fi.params:
+            node = self.fi.module.assign_nodes.get(e.id)
+            binds = sum(1 for st in ast.walk(self.fi.module.tree) if isinstance(st, (ast.Assign, ast.AnnAssign, ast.AugAssign)) for t in (st.targets if isinstance(st, ast.Assign) else [st.target]) for x in ast.walk(t) if isinstance(x, ast.Name) and x.id == e.id)
+            if node is not None and binds == 1 and getattr(node, "value", None) is not None:
+                return self._positive_number(node.value)
+        return None
+
+    def _nonzero_tests_canon(self, test: ast.AST) -> List[str]:
+        """expressions that are non-zero whenever `test` holds: `x`, `x != 0`, `x > K` / `x >= K` (K > 0), `x < K` /
+        `x <= K` (K < 0), and every conjunct of an `and`"""
+        out: List[str] = []
+        if isinstance(test, ast.BoolOp) and isinstance(test.op, ast.And):
+            for v in test.values:
+                out += self._nonzero_tests_canon(v)
+        elif isinstance(test, ast.Compare) and len(test.ops) == 1:
+            l, r, op = test.left, test.comparators[0], test.ops[0]
+            k = self._positive_number(r)
+            if k is not None:
+                if (isinstance(op, ast.NotEq) and k == 0) or (isinstance(op, ast.Gt) and k >= 0) or (isinstance(op, ast.GtE) and k > 0) or (isinstance(op, ast.Lt) and k <= 0) or (isinstance(op, ast.LtE) and k < 0):
+                    out.append(self._enum_canon(l))
+        elif isinstance(test, (ast.Name, ast.Attribute, ast.Subscript)):
+            out.append(self._enum_canon(test))
+        return out
 
     def _zero_tests_canon(self, test: ast.AST) -> List[str]:
         out: List[str] = []
